@@ -55,12 +55,16 @@ class Prop(PropBase):
                     s = scen.Scn(f'c15_fixed_{t}_{r}_{q}_rpm{rpm1}{"d" if d1 else "s"}_rpm{rpm2}{"d" if d2 else "s"}')
                     s.drv(0, l, cfg)
                     ms = scen.MechStream(rng, l, dual=d1)
+                    v4 = (t == 'RSBP' and q % 2 == 0)      # Bpearl v4 hardware (its own block period, detected on the first MSOP packet)
+                    if v4:
+                        pre0 = ms.msop
+                        ms.msop = lambda **kw: pre0(bpv4=True, **kw)
                     def nblocks(rpm, dual):
                         n = int(1.0 / ((rpm // 60) * 55.5e-6))
                         return n * 2 if dual else n
                     n1 = nblocks(rpm1, d1) * 3 // l.nblk + 3
                     n2 = nblocks(rpm2, d2) * 3 // l.nblk + 3
-                    pre = rng.randrange(0, 3)
+                    pre = 0 if v4 else rng.randrange(0, 3)      # v4: the DIFOP packet (return mode) comes before the first MSOP packet
                     for k in range(pre):
                         s.pkt(0, ms.msop(dist=lambda r_: 0, gap_prob=0.0), tick=0)
                     s.pkt(0, l.difop(dual=d1, rpm=rpm1), tick=0)
